@@ -6,7 +6,7 @@ import sys
 
 from hypothesis import strategies as st
 
-from vf import gen
+from vf import dense, gen
 from vf.budget import Budget
 from vf.core import Clause, Property, Violation
 from vf.osk import IS_PART, IS_TM, eff_tau, outcome_values, rate_values
@@ -70,6 +70,11 @@ def check_a(case, ctx):
     ctx.nontrivial_if(n >= 3 and sig_unequal)
 
 
+def check_a_dense(case, ctx):
+    check_a(case, ctx)
+    ctx.nontrivial_if(abs(case["meta"]["x"]) >= 3.0)
+
+
 # ------------------------------------------------------------------------------------------------
 # (b) two teams: loss <= draw <= win, prior between loss and win, draw does not raise the stronger team
 # ------------------------------------------------------------------------------------------------
@@ -103,6 +108,12 @@ def check_b(case, ctx):
             if bud.tmu[i] < bud.tmu[1 - i] and md < p[0] - allow:
                 raise Violation(f"draw-lowered-weaker:{fam(kind)}", f"{kind} |x|={x:.3f}: weaker team {i} player {j}: prior {p[0]!r} -> draw {md!r} (allowance {allow:.3e})")
     ctx.nontrivial_if(True if x >= 3 else bud.tmu[0] != bud.tmu[1])
+
+
+@st.composite
+def cases_b_dense(draw):
+    g = draw(dense.two_team_sweep(outcomes=("win",)))
+    return {"cfg": g["cfg"], "teams": g["teams"], "opts": {k: v for k, v in g["call"].items() if k in ("tau", "limit_sigma")}, "meta": g["meta"]}
 
 
 @st.composite
@@ -225,8 +236,12 @@ PROPERTY = Property(
     clauses=[
         Clause(name="a-first-last-direction-proportional", strategy=STRAT_A, check=check_a, quick=5000, thorough=100000,
                rule="any game; non-trivial = >= 3 teams and a team whose members have unequal sigma"),
+        Clause(name="a-dense-two-team-sweep", strategy=dense.two_team_sweep(), check=check_a_dense, quick=8000, thorough=300000,
+               rule="clause (a) on two-team games with the standardised gap drawn uniformly from [-10, 10]; non-trivial = |x| >= 3"),
         Clause(name="b-two-team-win-draw-loss", strategy=cases_b(), check=check_b, quick=4000, thorough=80000,
                rule="two teams rated three times (win / draw / loss); non-trivial = |x| >= 3 mismatch or unequal team totals"),
+        Clause(name="b-dense-two-team-sweep", strategy=cases_b_dense(), check=check_b, quick=8000, thorough=300000,
+               rule="clause (b) with the standardised gap drawn uniformly from [-10, 10]; non-trivial = |x| >= 3 or unequal totals"),
         Clause(name="c-exchange-with-better-placed", strategy=cases_c(), check=check_c, quick=3000, thorough=60000,
                rule="tie-free game under PL / full pairing, one team exchanges places with a better-placed one; non-trivial = >= 3 teams"),
         Clause(name="d-identical-teams-ordered", strategy=cases_d(), check=check_d, quick=3000, thorough=60000,
